@@ -14,9 +14,20 @@ void run_c05(sim::RunCtx& ctx) {
     common::apply_benign_knobs();
     common::plan_tags_and_shape(ctx, p);
     ctx.sample = p.describe();
+    int bad_at = -1, bad_kind = 0;
+    if (sim::draw(6) == 5) { bad_at = (int)sim::draw(12); bad_kind = (int)sim::draw(2); }
     if (common::plan_only()) return;
     const std::string path = SIMDISK "c05.parquet";
+    // 1 run in 6: one call with a column index out of range (which the API documents as an error) somewhere in the history. It must be refused; whether the writer
+    // carries on or gives up is its choice, but if close then says OK the file has to be the complete, valid table all the same
+    exec::g_bad_call_at = -1; exec::g_bad_call_made = false;
+    if (bad_at >= 0) { exec::g_bad_call_at = bad_at; exec::g_bad_call_kind = bad_kind; }
     exec::WriteOutcome w = exec::run_writer(p, path);
+    exec::g_bad_call_at = -1;
+    if (exec::g_bad_call_made) {
+        SIM_CHECK(exec::g_bad_call_status != CARQUET_OK, "contract.invalid_write_batch_accepted", "write_batch with %s returned OK", bad_kind == 0 ? "column index -1" : "column index == number of columns");
+        SIM_COUNT(w.close_status == CARQUET_OK ? "probe.invalid_call_refused_writer_carried_on" : "probe.invalid_call_refused_writer_gave_up");
+    }
     if (w.close_status != CARQUET_OK || !w.created) { ctx.refusal = true; SIM_COUNT("refusal.close_not_ok"); return; }
     if (!w.all_ok) { ctx.refusal = true; SIM_COUNT("refusal.writer_call_not_ok"); return; }
     sim::L.bytes(w.image.data(), w.image.size());
@@ -32,6 +43,7 @@ void run_c05(sim::RunCtx& ctx) {
     sim::allocplan.dirt ^= 0x5C; sim::allocplan.realloc_moves = !sim::allocplan.realloc_moves;
     sim::sinkplan.vbuf_mode = sim::sinkplan.vbuf_mode == 1 ? 2 : 1; sim::sinkplan.vbuf_size = 128;
     std::vector<void*> noise; for (int i = 0; i < 7; i++) noise.push_back(malloc(48 + (size_t)i * 40));
+    exec::g_bad_call_made = false;
     exec::WriteOutcome w2 = exec::run_writer(p, SIMDISK "c05b.parquet");
     for (auto q : noise) free(q);
     SIM_CHECK(w2.all_ok, "determinism.second_write_failed", "second write of the same plan failed (status %d)", (int)w2.first_bad_status);
@@ -45,7 +57,7 @@ namespace sim {
 void register_c05() {
     Property p;
     p.id = "C05"; p.level = "exploration";
-    p.rule = "one evaluation = one seeded writer plan (same generator as C01) whose image, after carquet_writer_close == OK, is parsed and fully decoded by the independent peer reader with all structural checks (magics, footer length, required Thrift fields, chunk tiling, page chain, counts, encodings, codec decode, CRC vs zlib, uncompressed sizes, totals) and compared with the model; then written a second time under different allocator dirt/addresses/stdio buffering and compared byte for byte; non-trivial and distinct as in C01";
+    p.rule = "one evaluation = one seeded writer plan (same generator as C01; 1 in 6 with one write_batch call with an out-of-range column index slipped in, which must be refused) whose image, after carquet_writer_close == OK, is parsed and fully decoded by the independent peer reader with all structural checks (magics, footer length, required Thrift fields, chunk tiling, page chain, counts, encodings, codec decode, CRC vs zlib, uncompressed sizes, totals) and compared with the model; then written a second time under different allocator dirt/addresses/stdio buffering and compared byte for byte; non-trivial and distinct as in C01";
     p.quick_runs = 30000; p.thorough_runs = 1500000;
     p.run = run_c05;
     p.assumptions = {"the peer reader implements parquet.thrift / Encodings.md / Snappy / LZ4 block format independently; zlib and zstd are the system libraries",
